@@ -247,6 +247,11 @@ def first_diff(a, b):
 
 # ------------------------------------------------------------------ reporting
 
+# what harness/watchdog.h reported during this run: windows without progress in which the machine did not run some thread of the harness
+# (they do not count towards a `result hung` verdict); filled by checks/hsim.py, written into the evidence
+WATCHDOG = {}
+
+
 class Report:
     """Collects the result of one check run and writes evidence/replays."""
 
@@ -303,6 +308,8 @@ class Report:
 
     def finish(self, level="proof"):
         self.cov["distinct_nontrivial"] = len(self._distinct)
+        if WATCHDOG:
+            self.cov["watchdog"] = dict(WATCHDOG)
         ev = dict(property_id=self.prop, tier=self.tier, seed=self.seed, level=level, coverage=self.cov,
                   assumptions=self.assumptions, wall_s=round(time.time() - self.t0, 2),
                   violations=len(self.violations), known_findings_replayed=self.known, notes=self.notes)
